@@ -345,7 +345,11 @@ def oracle(ctx, kind, case, model, analysis, samples, result, cores=1, partial_k
             return -1
         lp_true = sum(own_log_prior(p, x) for p, x in zip(priors, row))
         tol = 1e-9 * (1 + abs(t1) + abs(lp_true))
-        if not near(ll, t1, tol):
+        if not inside and (ll == float("-inf") or ll <= -1e98):
+            # a point outside the prior limits (an optimiser is free to end there): the library does not evaluate the
+            # likelihood at such a point but reports its designated resample value (C04's subject)
+            ctx.hit("oracle:sample-outside-prior-limits-carries-resample-value")
+        elif not near(ll, t1, tol):
             bad_ll.append(k)
             bad_true.append(t1)
             bad_rep.append(ll)
